@@ -16,7 +16,7 @@
 //! The wait-for-graph detector and a watchdog report real deadlocks (`C17:deadlock:<cycle>`).  Corpus:
 //! the former confirmation scenarios of the repaired cycles `E>P>E` and `G>P>G` (delay injection) and of
 //! the `<send>` re-lock now run as regression scenarios (a deadlock or hang there is an unknown oracle
-//! failure); the remaining cycle `D>D` is still confirmed on the real code (`a[a]`).
+//! failure); the `D>D` instance `a[a]` is a regression scenario as well since its repair (C11/P4).
 use crate::proto::Model;
 use crate::report::Report;
 use crate::Args;
